@@ -20,7 +20,7 @@ VARIABLES l, stk, viol, stat
 vars == <<l, stk, viol, stat>>
 Rec == TraceLog[l]
 
-Ops == {"Find", "FindMax", "MoveI", "MoveB", "Cross", "SetDir", "Safety", "MoveTo"}
+Ops == {"Find", "FindMax", "MoveI", "MoveB", "Cross", "SetDir", "Safety", "MoveTo", "SafetyMax", "Copy"}
 Kinds == Ops \cup {"Init", "judged", "unjudged", "safety_pos"}
 
 Init ==
@@ -65,7 +65,7 @@ TOp ==
             cl == IF a.ok THEN Clauses(a, Rec, b) ELSE {}
         IN /\ stk' = SubSeq(stk, 1, Rec.j - 1) \o <<[b EXCEPT !.ok = (a.ok /\ Hard(cl) = {})]>>
            /\ viol' = Note(cl, Rec.n)
-           /\ Count(Rec.e, a.ok, Rec.e = "Safety" /\ a.ok /\ Rec.s2c > 0)
+           /\ Count(Rec.e, a.ok, Rec.e \in {"Safety", "SafetyMax"} /\ a.ok /\ Rec.s2c > 0)
 
 \* exploration statistics written by the harness (not judged)
 TStats ==
